@@ -478,6 +478,38 @@ def sendOrWaitLoop (timeout : Nat) : (err : TryRes) → List (Nat × TryRes) →
       if elapsed ≥ timeout then some .errNoItem                  -- `Err(err)` with retryable = None
       else some .errNoItem                                       -- `err.try_into_retryable()?` (246)
 
+/-- The clock reading of the last loop iteration of `send_or_wait` that was entered (the call returns right at it,
+    or right after the `try_send` that follows its wait). -/
+def sendOrWaitLastReading (timeout : Nat) : (err : TryRes) → List (Nat × TryRes) → Option Nat
+  | _, [] => none
+  | err, (elapsed, next) :: rest =>
+    match err with
+    | .ok => none
+    | .closed => some elapsed
+    | .full _ =>
+      if elapsed ≥ timeout then some elapsed
+      else match next with
+        | .ok => some elapsed
+        | e => match sendOrWaitLastReading timeout e rest with
+          | some t => some t
+          | none => some elapsed
+
+/-- Remaining-time accounting (lib.rs:243): every wait round is asked for `timeout - elapsed`, NOT for `timeout`.
+    The runtime assumption: a wait returns within the time it was asked for plus a slack `δ`, i.e. the next
+    clock reading is at most `elapsed + (timeout - elapsed) + δ`; `bound` is that bound for the current reading
+    (`δ` for the first one: the loop is entered right after the start). -/
+def sendOrWaitHonest (δ timeout : Nat) : (bound : Nat) → (err : TryRes) → List (Nat × TryRes) → Prop
+  | _, _, [] => True
+  | bound, err, (elapsed, next) :: rest =>
+    elapsed ≤ bound ∧
+    match err with
+    | .full _ =>
+      if elapsed ≥ timeout then True
+      else match next with
+        | .ok => True
+        | e => sendOrWaitHonest δ timeout (elapsed + (timeout - elapsed) + δ) e rest
+    | _ => True
+
 /-- `send_or_wait` (lib.rs:222-256): first `try_send`, then the loop. -/
 def sendOrWait (timeout : Nat) (first : TryRes) (obs : List (Nat × TryRes)) : Option SendRes :=
   match first with
@@ -529,6 +561,7 @@ def pathPanics : BlockingPath → Ctx → Bool
 /-- Receiver the blocking call runs against (stream `batcher_blocking`). -/
 inductive RxKind where
   | live | stalled | gone
+  | refill   -- full queue, one take at 0.7·T, refilled at once by an earlier when_empty callback, no further take
   | late     -- stalled when the call starts, started 30 ms later: the call has to wait, then the queue is drained
   | hangup   -- the receiver takes the batch with the watcher, never finishes it and is torn down
   deriving Repr, DecidableEq
@@ -547,6 +580,7 @@ def blockingFlush (cfg : Cfg) (rx : RxKind) (prefill timeout : Nat) : Option Boo
   let wakes : List CvWake := match rx with
     | .live => [{ flag := true, timedOut := false, elapsed := 0 }]
     | .late => [{ flag := true, timedOut := false, elapsed := 30 }]
+    | .refill => [{ flag := false, timedOut := true, elapsed := timeout }]
     | _ => [{ flag := false, timedOut := true, elapsed := timeout }]
   waitTimeout timeout flag0 wakes
 
@@ -565,13 +599,19 @@ def asyncFlush (cfg : Cfg) (rx : RxKind) (prefill timeout : Nat) : Bool :=
 
 /-- `sync::blocking_send` (sync.rs:97-140) = `send_or_wait` with the condvar wait. Against a live receiver the
     queue has been taken when the wait returns; against a stalled one the wait lasts until the timeout. -/
-def blockingSend (cfg : Cfg) (rx : RxKind) (prefill timeout : Nat) (x : Nat) : Option SendRes :=
+def blockingSendObs (cfg : Cfg) (rx : RxKind) (prefill timeout : Nat) (x : Nat) : TryRes × List (Nat × TryRes) :=
   let s := prefillState cfg rx prefill
   let first := (trySend cfg s x).2
   let obs : List (Nat × TryRes) := match rx with
     | .live => [(0, .ok)]
+    -- woken at 0.7·T, the slot is gone; the second wait is asked for the remaining 0.3·T and times out at T
+    | .refill => [(0, first), (timeout * 7 / 10, first), (timeout, first)]
     | .late => [(0, .ok)]
     | _ => [(0, first), (timeout, first)]
+  (first, obs)
+
+def blockingSend (cfg : Cfg) (rx : RxKind) (prefill timeout : Nat) (x : Nat) : Option SendRes :=
+  let (first, obs) := blockingSendObs cfg rx prefill timeout x
   sendOrWait timeout first obs
 
 end EmitModel.Batcher
